@@ -3,7 +3,7 @@ from pyvc.verify import Post, Case, Equiv, NativeFacts
 from contracts import common
 
 PROPERTY = 'C08'
-REF_MODULES = ['ref_core', 'ref_match', 'ref_reduce', 'ref_auto', 'ref_extra']
+REF_MODULES = ['ref_core', 'ref_match', 'ref_reduce', 'ref_auto', 'ref_extra', 'h_path']
 
 
 def config(cfg):
@@ -43,6 +43,10 @@ def contracts():
     cs += common.shared(X_ctor, ['core._is_spec', 'core.Auto.__init__', 'core.Fill.__init__', 'grouping.Group.__init__', 'matching.Match.__init__'])
     from contracts import C03
     cs += common.shared(C03, ['core.Coalesce.glomit', 'core._handle_tuple', 'core._has_callable_glomit', 'core.Call.glomit'])
+    from contracts import C15 as _c15, C18 as _c18
+    cs += common.shared(_c15, ['grouping.target_iter'])
+    cs += common.shared(_c18, ['core.Path.__init__'])
+    cs += common.shared(X_ctor, ['core._ArgValuator.__init__'])
     return cs
 
 
